@@ -346,8 +346,13 @@ def _run(pid, cfg, tier, seed, work, t0, replay):
     }
     if cfg.get("exhaustive_note"):
         evidence["coverage"]["exhaustive_subspaces"] = cfg["exhaustive_note"]
-    os.makedirs(os.path.join(ROOT, "evidence"), exist_ok=True)
-    with open(os.path.join(ROOT, "evidence", pid + ".json"), "w") as f:
+    # (development runs against another checkout - VERIF_REPO - must not pass
+    # for evidence about /repo: theirs goes to a scratch directory)
+    evdir = os.path.join(ROOT, "evidence")
+    if os.environ.get("VERIF_REPO"):
+        evdir = os.path.join("/var/tmp", "verif-alt-evidence")
+    os.makedirs(evdir, exist_ok=True)
+    with open(os.path.join(evdir, pid + ".json"), "w") as f:
         json.dump(evidence, f, indent=1, ensure_ascii=False)
         f.write("\n")
 
